@@ -5,6 +5,10 @@ package timed
 // VerifYield is a verification hook (build tag verif only). When set, Poll calls it right after it popped an element
 // and released the heap mutex, before it creates the timer and enters the select; queue is the *Queue[T], element the
 // *QueueElement[T]. It must be set before any queue is used and is a no-op when nil.
+// Further points (same arguments): poll:ctx (the select took ctx.Done), poll:ignore (IgnorePendingTimeouts path, before
+// the value is returned), poll:timer / poll:timer2 (the outer / inner select took the timer, before the value is
+// returned). In the TaskExecutor wrapper (queue = the *TaskExecutor[T], element = the identifier): task:polled (Poll
+// returned the wrapper, before it takes queuedElementsMutex) and task:checked (entry removed, before the callback).
 var VerifYield func(point string, queue any, element any)
 
 func verifYield(point string, queue any, element any) {
